@@ -18,7 +18,11 @@ namespace KrroodVerif.Drive.C17
 open KrroodVerif.CD
 
 /-- the quirk setting of the code as it is now; switch a flag off in the commit that marks its finding fixed -/
-def current : Quirks := { shallowCopy := false, singleUnwrap := true, pipeNotOptional := true, argZero := true }
+def current : Quirks := Quirks.current
+
+/-- the setting before the last repair (F-C17-3), printed as `before_fix=` for the reader of a replay; deliberately not a
+`model…=` field: the comparison must not accept the repaired defect as admissible behaviour -/
+def beforeFix : Quirks := { current with pipeNotOptional := true, argZero := true }
 
 partial def parseAnn : Sexp → Option Ann
   | .atom "int" => some (.builtin .int)
@@ -164,7 +168,9 @@ def run (s : Sexp) : String :=
         let main := observe current w ord ops
         let alts := dedupStrings ((alternatives.map fun q => observe q w ord ops).filter (· != main))
         let altFields := (List.zip (List.range alts.length) alts).map fun p => s!"\tmodel_alt{p.1}={p.2}"
+        let before := observe beforeFix w ord ops
         s!"model={main}\tspec={observeSpec w ord ops}\ttrig={",".intercalate (triggers w ord ops)}" ++ "".intercalate altFields
+          ++ (if before != main then s!"\tbefore_fix={before}" else "")
       | _, _, _ => "error=bad-case"
     | _, _, _ => "error=bad-case"
   | _ => "error=bad-case"
